@@ -61,7 +61,8 @@ class TreeName:
     def __init__(self, is_def, definition=None, parent=None, prefix=' '):
         self._is_def = is_def
         self._definition = definition
-        self.parent = parent
+        # every real name token has a parent node; a definition's parent is its statement
+        self.parent = parent if parent is not None else (definition if definition is not None else Obj(type='expr_stmt'))
         self.prefix = prefix
         self.type = 'name'
 
@@ -485,7 +486,7 @@ class C06c(Obligation):
     id = 'C06.c'
     title = 'extract_variable over EVERY selection of a program: refused with RefactoringError, or the result compiles and computes the same'
     pattern = 'P4 concrete tree x symbolic selection (start and end are unconstrained integers inside the text); oracle: compile + run both programs'
-    interpret_modules = ('jedi', 'parso', 'obligations')
+    interpret_modules = ('jedi.api', 'parso', 'obligations')
     loop_bound = 600
     max_paths = 20000
     assumptions = (
